@@ -276,6 +276,36 @@ pub fn token_table() -> Vec<(Op, Partial)> {
     out
 }
 
+/// reduced token set for the exhaustive two-token table
+pub fn small_token_table() -> Vec<(Op, Partial)> {
+    let comps: Vec<Comp> = vec![Comp::Num { val: 0, zeros: 0 }, Comp::Num { val: 1, zeros: 0 }, Comp::Wild('x')];
+    let quals: Vec<Vec<&str>> = vec![vec![], vec!["0"], vec!["beta"]];
+    let mk = |c: Vec<Comp>, q: &Vec<&str>| Partial { v: false, comps: c, pre: q.iter().map(|s| s.to_string()).collect(), build: vec![], hyphenless: false };
+    let mut parts = vec![];
+    for a in &comps {
+        parts.push(mk(vec![a.clone()], &quals[0]));
+        for b in &comps {
+            parts.push(mk(vec![a.clone(), b.clone()], &quals[0]));
+            for c in &comps {
+                for q in &quals {
+                    parts.push(mk(vec![a.clone(), b.clone(), c.clone()], q));
+                }
+            }
+        }
+    }
+    let wild_open = findings::is_open(F_WILD);
+    let mut out = vec![];
+    for op in Op::all() {
+        for p in &parts {
+            if wild_open && op_wildcard_misplaced(op, p) {
+                continue;
+            }
+            out.push((op, p.clone()));
+        }
+    }
+    out
+}
+
 pub fn probe_grid() -> Vec<MVersion> {
     let mut out = vec![];
     for a in 0..4u64 {
@@ -388,6 +418,33 @@ pub fn run(cfg: &RunCfg) -> PropRun {
     }
     known_probes(&mut run);
 
+    // exhaustive two-token conjunctions over a reduced token set (9 operators x partials over {0,1,x}
+    // x qualifier {none,-0,-beta}; tokens of an open finding class left out): every ordered pair
+    let small = small_token_table();
+    let sm = &small;
+    let stride = if cfg.tier == Tier::Thorough { 1 } else { 3 };
+    let out = enumerate(
+        cfg,
+        "two-token-table",
+        move |shard, nsh| (0..sm.len()).filter(move |i| i % nsh == shard),
+        move |i, st| {
+            let mut j = (*i * 7) % stride;
+            while j < sm.len() {
+                let toks = vec![
+                    Tok::Cmp { op: sm[*i].0, blanks: 0, p: sm[*i].1.clone() },
+                    Tok::Cmp { op: sm[j].0, blanks: 0, p: sm[j].1.clone() },
+                ];
+                let ast = RangeAst::single(Alt::Simples { toks, seps: vec![" ".to_string()] });
+                check_ast(&ast, &[], st, false)?;
+                j += stride;
+            }
+            Ok(())
+        },
+    );
+    run.absorb(out);
+    run.stats.exhaustive_subspaces.push(json!({"name": "two-token conjunctions over the reduced token set", "tokens": small.len(), "ordered_pairs": small.len() * small.len() / stride,
+        "stride": stride}));
+
     // random ASTs
     let total = cfg.pick(300_000, 3_000_000);
     let out = campaign(cfg, ID, "ast", total, case_strategy, check_case);
@@ -442,6 +499,16 @@ pub fn replay(campaign: &str, case: &Value) -> Result<(), Failure> {
     let mut st = Stats::default();
     match campaign {
         "ast" => check_case(&serde_json::from_value(case.clone()).map_err(bad)?, &mut st),
+        "two-token-table" => {
+            let i: usize = serde_json::from_value(case.clone()).map_err(bad)?;
+            let sm = small_token_table();
+            for j in 0..sm.len() {
+                let toks = vec![Tok::Cmp { op: sm[i].0, blanks: 0, p: sm[i].1.clone() }, Tok::Cmp { op: sm[j].0, blanks: 0, p: sm[j].1.clone() }];
+                let ast = RangeAst::single(Alt::Simples { toks, seps: vec![" ".to_string()] });
+                check_ast(&ast, &[], &mut st, false)?;
+            }
+            Ok(())
+        }
         "single-token-table" => {
             let i: usize = serde_json::from_value(case.clone()).map_err(bad)?;
             let table = token_table();
